@@ -26,7 +26,8 @@ ASSUMPTIONS = [
     "the fresh rebuild receives the leaf values through its JSON, never through parameter updates",
 ]
 BUDGET = {"quick": 80, "thorough": 900}
-FLOORS = {"operations": {"quick": 3000, "thorough": 30000}, "comparisons": {"quick": 10000, "thorough": 100000}, "graphs": 6, "op_kinds": 8,
+ROUNDS = {"thorough": 8}
+FLOORS = {"overlay.C11.recomputed": {"quick": 50, "thorough": 800}, "operations": {"quick": 3000, "thorough": 30000}, "comparisons": {"quick": 10000, "thorough": 100000}, "graphs": 6, "op_kinds": 8,
           "handlers_reached": 15}
 
 OPS = ["assign", "assign", "assign", "assign-view", "assign-cat", "assign-transformed", "sample", "rsample", "operator-accept", "operator-reject", "data-edit", "requires-grad"]
@@ -61,7 +62,7 @@ def _wrap(f, key):
     return g
 
 
-def cases(tier, seed):
+def _cases(tier, seed):
     rng = np.random.default_rng([seed, 11])
     n = {"quick": 420, "thorough": 4000}[tier]
     names = list(zoo.GRAPHS)
@@ -98,7 +99,7 @@ def observe(dic, g, ids_eval, ids_derived, tensors):
     return out
 
 
-def run_case(case):
+def _run_case(case):
     import torch
     from torchtree.core.parameter import CatParameter, Parameter, TransformedParameter, ViewParameter
     from torchtree.inference.mcmc.operator import ScalerOperator, SlidingWindowOperator
@@ -276,3 +277,20 @@ def run_case(case):
     C["handlers_reached"] = sorted(_counts)
     fp = "%s|%d" % (gname, case["seed"]) if updates_after_eval else None
     return {"violations": V, "counters": C, "fingerprint": fp, "sample": {"graph": gname, "history": history[:15]} if len(history) <= 15 else None}
+
+
+# ---------------------------------------------------------------- the same invariants as an overlay on realistic workloads
+def cases(tier, seed):
+    """the property's own generator plus the shared workloads (configurations emitted by torchtree-cli, loaded, evaluated and
+    really run for a few iterations; in thorough also the repository's own test-suite) with this property's contracts attached"""
+    from ..work import shared
+
+    return shared.overlay_cases(tier, seed, PROPERTY) + _cases(tier, seed)
+
+
+def run_case(case):
+    if isinstance(case, dict) and "overlay" in case:
+        from ..work import shared
+
+        return shared.run_overlay_case(case, PROPERTY)
+    return _run_case(case)
